@@ -53,7 +53,7 @@ class Contract:
                inline=False, captured=None, pure=False, kind='function',
                on_raise=None, gen_post=None, setup=None, hints=None,
                locals_shapes=None, memo=False, reads=None, at_calls=None,
-               binds=None):
+               binds=None, fn_qualname=None, const_args=None, impl=None):
     self.qualname = qualname
     self.params = params or {}            # name -> Shape (self excluded)
     self.result = result                  # Shape of the result (call side)
@@ -89,6 +89,11 @@ class Contract:
     # exactly that value (used for object references, which cannot be equated
     # by a formula); proved on the callee side like a postcondition.
     self.binds = binds or {}
+    # variants: the same function verified under constant arguments
+    self.fn_qualname = fn_qualname or qualname
+    self.const_args = const_args or {}
+    # impl: trusted direct implementation of a call (library-like helper)
+    self.impl = impl
 
 
 class ClassSpec:
@@ -111,6 +116,7 @@ class ModuleSpec:
     self.contracts = {}
     self.inline = set()        # qualnames that are inlined at call sites
     self.axioms = []           # (label, fn(ctx) -> z3 Bool) trusted facts
+    self.variants = {}         # fn qualname -> [Contract with const_args]
 
   def cls(self, name, **kw):
     c = ClassSpec(name, **kw)
@@ -120,6 +126,8 @@ class ModuleSpec:
   def contract(self, qualname, **kw):
     c = Contract(qualname, **kw)
     self.contracts[qualname] = c
+    if c.const_args:
+      self.variants.setdefault(c.fn_qualname, []).append(c)
     return c
 
 
